@@ -31,6 +31,7 @@ class Obl:
         self.status = UNDETERMINED
         self.detail = ""
         self.seconds = 0.0
+        self.witness = None
 
     def rec(self):
         return {"id": self.id, "backend": self.backend, "unit": self.unit, "function": self.fn, "status": self.status,
@@ -64,7 +65,7 @@ class Report:
         self.obls[o.id] = o
         return o
 
-    def finish(self):
+    def finish(self, witness_finder=None):
         known = [k for k in load_known() if k.get("property") == self.prop and k.get("status") == "known"]
         known_ids = {k["obligation"]: k for k in known}
         failed = [o for o in self.obls.values() if o.status == FAILED]
@@ -75,7 +76,12 @@ class Report:
             if o.id in known_ids:
                 known_hit.append((o, known_ids[o.id]))
             else:
-                violations.append({"id": o.id, "detail": o.detail, "unit": o.unit, "function": o.fn})
+                if o.witness is None and witness_finder is not None and sum(1 for v in violations if v.get('witness')) < 3 and len(violations) < 6:
+                    try:
+                        o.witness = witness_finder(o)
+                    except Exception as e:  # the search is a convenience; never let it change the verdict
+                        o.detail += " [witness search failed: %s]" % e
+                violations.append({"id": o.id, "detail": o.detail, "unit": o.unit, "function": o.fn, "witness": o.witness})
         for x in self.extra_failed:
             if x["id"] in known_ids:
                 known_hit.append((None, known_ids[x["id"]]))
